@@ -92,6 +92,11 @@ func c04Expect(c c04Case) (validHS, loggedIn bool) {
 				hash = *a.RawHash
 			}
 			loggedIn = bcrypt.CompareHashAndPassword([]byte(hash), pwField) == nil
+			if len(pwField) > 72 {
+				// beyond bcrypt's input limit (outside the quantifier; kept as a boundary probe): bcrypt itself
+				// only reads 72 bytes, the property says "that account's current password" - exactly that one
+				loggedIn = a.RawHash == nil && string(pwField) == string(ref.Obfuscate([]byte(a.Password)))
+			}
 		}
 	}
 	return
